@@ -7,7 +7,7 @@ def check(run):
     n = 24 if run.tier == "quick" else 400
     ops = 300 if run.tier == "quick" else 2000
     kvcommon.drive(run, "cursor", n, ops, reopen=False, geometry=(25 if run.tier == "quick" else 600),
-                   boundary=(40 if run.tier == "quick" else 1500), probe=(12 if run.tier == "quick" else 400))
+                   boundary=(40 if run.tier == "quick" else 1500), probe=(12 if run.tier == "quick" else 400), skipfail=(30 if run.tier == "quick" else 1500))
     return run.finish(level=LEVEL, rule=kvcommon.RULE, assumptions=kvcommon.ASSUME)
 
 def replay(run, path):
